@@ -58,7 +58,9 @@ def replay_chunk(args):
     pairs, seed, workdir = args
     fails = []
     stats = {"evals": 0, "nontrivial": 0, "skipped": 0}
-    for si, (sc, al) in enumerate(pairs):
+    for si, pair in enumerate(pairs):
+        sc, al = pair[0], pair[1]
+        hdrlink = pair[2] if len(pair) > 2 else (si % 2 == 0)
         core.tick(sc, 600)
         tags = scen.features(sc) | {"c15"} | {"link." + l for l in al["links"]}
         if not scen.well_formed(sc) or any(r["warns"] for r in sc["res"]) or "argv.forced_name_beside_main" in tags:
@@ -67,7 +69,7 @@ def replay_chunk(args):
         base = scen.new_base(workdir)
         try:
             rnd = random.Random(f"{seed}-{si}")
-            if al["links"] and si % 2 == 0:
+            if hdrlink:
                 # name-level aliases: some #include directives name h.h through a link hl.h -> h.h that stands
                 # beside every h.h (so the search finds it in exactly the same directory; one physical file)
                 sc = copy.deepcopy(sc)
@@ -231,6 +233,17 @@ def run(ctx):
         pairs.append((sc, aliases[(i * 7 + ctx.seed) % len(aliases)]))
         if not q:
             pairs.append((sc, rnd.choice(aliases)))
+    pairs = [(sc, al, bool(al["links"]) and i % 2 == 0) for i, (sc, al) in enumerate(pairs)]
+    # re-inclusion scenarios (profile c04g, exhaustive: guarded / #pragma once / plain headers included up to three
+    # times with the guard macros undefined in between): the later inclusions name the header through a link
+    g = runner.sharded_tlc(ctx, "GenScen", C04.CFG.format(profile="c04g", shard="@SHARD@", nshards="@NSHARDS@"), 8,
+                           "GenScen_c04g", timeout=900)
+    g = [sc for sc in C04.dedup(g) if scen.well_formed(sc) and not any(r["warns"] for r in sc["res"])
+         and sum(1 for it in sc["files"]["src/m1.c"]["items"] if it["k"] == "include") >= 2]
+    rnd.shuffle(g)
+    g = g[:(150 if q else 2000)]
+    ctx.cov["reinclusion_scenarios"] = len(g)
+    pairs += [(sc, aliases[(i * 5 + ctx.seed) % len(aliases)], True) for i, sc in enumerate(g)]
     ctx.cov["rule"] = (
         "TLC-simulated GenScen scenarios paired with GenAlias link sets (all 192 subsets of 8 links are generated and "
         "verified by TLC; each scenario gets one or two of them): compile commands spell their source file and every -I "
